@@ -287,6 +287,8 @@ pub struct World {
     pub epoch: u32,
     /// a child panicked inside a poll: liveness is no longer demanded of the subject (safety still is)
     pub lenient: bool,
+    /// every future handed to the subject is of a type without destructor
+    pub untracked_futs: bool,
     pub active: bool,
     /// 0 collection, 1 merge, 2 adapter, 3 join_all, 4 try_join_all
     pub class: u8,
@@ -350,6 +352,7 @@ impl World {
             scan_from: 0,
             epoch: 0,
             lenient: false,
+            untracked_futs: false,
             active: false,
             class: 0,
         }
@@ -404,7 +407,7 @@ impl World {
             pushed_seq: 0,
             epoch: 0,
             panic_left: plan.panic_polls,
-            no_drop_glue: false,
+            no_drop_glue: self.untracked_futs && role == Role::Fut,
         });
         id
     }
